@@ -164,3 +164,60 @@ pub fn walk_avps(b: &[u8]) -> Result<Vec<(usize, usize)>, String> {
 pub fn is_nontrivial_input(b: &[u8]) -> bool {
     b.len() >= 6
 }
+
+/// Power-of-two bucket of a stack high-water mark.
+pub fn stack_bucket(n: usize) -> &'static str {
+    match n {
+        0 => "stack.unmeasured",
+        1..=2048 => "stack.le_2KiB",
+        2049..=4096 => "stack.le_4KiB",
+        4097..=8192 => "stack.le_8KiB",
+        8193..=16384 => "stack.le_16KiB",
+        16385..=32768 => "stack.le_32KiB",
+        32769..=65536 => "stack.le_64KiB",
+        _ => "stack.gt_64KiB",
+    }
+}
+
+pub const STACK_LIMIT: usize = 56 * 1024;
+
+/// The same call on a fresh thread: in its body and again from thread-local destructors while
+/// the thread is torn down (`exec::threadenv`). All results must equal the direct one.
+pub fn thread_env_check<T: PartialEq + std::fmt::Debug + Send + 'static>(ctx: &mut super::Ctx, prop: &str, direct: &Out<T>, f: impl Fn() -> Out<T> + Send + Sync + 'static, wit: J) {
+    let run = crate::exec::threadenv::run(f);
+    ctx.rep.bucket("thread_env.runs");
+    ctx.rep.bucket(stack_bucket(run.stack_used));
+    match &run.body {
+        None => {
+            ctx.violate(format!("{}:thread-env:thread-died", prop), "the call made in the body of a fresh thread did not return", wit);
+            return;
+        }
+        Some(b) if !same_out(b, direct) => {
+            ctx.violate(format!("{}:thread-env:body:{}-vs-{}", prop, b.class(), direct.class()), format!("on a fresh thread the call gave {}, on the main thread {}", out_str(b), out_str(direct)), wit);
+            return;
+        }
+        _ => {}
+    }
+    // a thread created with a 64 KiB stack (8 KiB of it left to the runtime and the caller) is an
+    // environment the API does not exclude; a single call that needs more cannot complete there
+    if run.stack_used > STACK_LIMIT {
+        ctx.violate(format!("{}:thread-env:stack-exceeds-64KiB-thread", prop), format!("one call touched {} octets of stack; it overflows the stack of a thread created with 64 KiB", run.stack_used), wit);
+        return;
+    }
+    if run.teardown.len() != 2 {
+        // a destructor that did not report: the closure panicked outside the codec call
+        ctx.rep.bucket("thread_env.teardown_incomplete");
+        return;
+    }
+    for t in &run.teardown {
+        ctx.rep.bucket("thread_env.teardown_calls");
+        if !same_out(t, direct) {
+            let class = match t {
+                Out::Panic(p) => format!("panic:{}", p.class()),
+                o => format!("{}-vs-{}", o.class(), direct.class()),
+            };
+            ctx.violate(format!("{}:thread-env:teardown:{}", prop, class), format!("called from a thread-local destructor while the thread exits, the call gave {}; in the thread's body {}", out_str(t), out_str(direct)), wit);
+            return;
+        }
+    }
+}
